@@ -79,7 +79,9 @@ JunkParseOk(e) ==     \* a = parse(junk ++ msg ++ sfx), b = parse(msg ++ sfx), b
      /\ e.b.v = "filtered" => e.a.n = e.b.n
 \* very long junk, given as `n` copies of one byte that is not part of the pattern
 Num == INSTANCE Numerals
-JunkRepOk(e) == (e.fill \notin {68, 76, 84, 1} /\ e.b.v = "msg") => (e.a.v = "msg" /\ e.a.m = e.b.m /\ e.a.consumed = e.b.consumed + e.n)
+JunkRepOk(e) == /\ (e.fill \notin {68, 76, 84, 1} /\ e.b.v = "msg") => (e.a.v = "msg" /\ e.a.m = e.b.m /\ e.a.consumed = e.b.consumed + e.n)
+                /\ (e.fill \notin {68, 76, 84, 1} /\ FindPattern(e.msg) = 1 /\ e.a.v \in {"msg", "filtered"})
+                      => e.a.consumed = e.n + FrameOf(e.msg \o <<7>>, TRUE, "parse").end            \* the frame at the first occurrence
 ForwardRepOk(e) == e.fill \notin {68, 76, 84, 1} => (e.res.v = "found" /\ Num!Eq(e.res.dropped, e.n) /\ e.res.rest_len = 4)
 RECURSIVE StreamOf(_, _)
 StreamOf(parts, i) == IF i > Len(parts) THEN <<>> ELSE parts[i].junk \o parts[i].msg \o StreamOf(parts, i + 1)
